@@ -26,6 +26,8 @@ pub enum State {
     TestFinished,
     /// `launch` answered, `configurationDone` not sent yet
     TestLaunched,
+    /// as TestLaunched, and the client has already asked for `pause` (a client may send requests in any order)
+    TestLaunchedPauseSent,
 }
 
 #[derive(Clone, Copy, Debug, PartialEq, Eq, Hash)]
@@ -41,13 +43,14 @@ pub enum Action {
     DapDisconnectKeep,
 }
 
-pub const STATES: [State; 6] = [
+pub const STATES: [State; 7] = [
     State::NoDebugger,
     State::AttachedIdle,
     State::TestRunning,
     State::TestPaused,
     State::TestFinished,
     State::TestLaunched,
+    State::TestLaunchedPauseSent,
 ];
 
 pub fn orders(state: State) -> Vec<(&'static str, Vec<Action>)> {
@@ -225,7 +228,11 @@ pub fn run_history(bin: &str, dir: &Path, port: u16, state: State, actions: &[Ac
         if state != State::AttachedIdle {
             let s = send_dap(&mut tcp, "launch", json!({"workspace": dir.display().to_string(), "testRunner": {"testCaseName": "t"}}));
             setup_ok &= wait_for(rx, |v| v["type"] == "response" && v["request_seq"] == s && v["success"] == true, 5000);
-            if state != State::TestLaunched {
+            if state == State::TestLaunchedPauseSent {
+                let _ = send_dap(&mut tcp, "pause", json!({"threadId": 1}));
+                std::thread::sleep(Duration::from_millis(60));
+            }
+            if state != State::TestLaunched && state != State::TestLaunchedPauseSent {
                 let s = send_dap(&mut tcp, "configurationDone", json!(null));
                 setup_ok &= wait_for(rx, |v| v["type"] == "response" && v["request_seq"] == s, 5000);
             }
